@@ -9,7 +9,7 @@ META = {
     "category": "translation_validation",
     "text": "Core proved, rest validated per program. Proved in Lean for ALL operand values: every row of the operator / conversion table that the "
             "real emitter (wir.EmitBinOp/EmitUnOp/EmitGenConvert) produces — regenerated from /repo on every run — computes Go's result "
-            "(253 rows: arithmetic, bitwise, comparisons, mixed-width shifts under the count guard, unary ops, int conversions), and the "
+            "(253 rows: arithmetic, bitwise, comparisons, mixed-width shifts under the count guard, unary ops, int conversions); the rows compose: a compiled straight-line SSA block of any length (rows with operand registers substituted + local.set) computes the source-level evaluation of the block (block_correct); and the "
             "full-strength statements that fail (shift count >= register width, MinInt/-1) are proved false with witnesses that the check replays "
             "on the real compiler. Everything else in the pipeline is validated by single-source differential execution: the same .wa.go text "
             "runs through api.RunCode and through `go run`; an operand grid over every table row, and generated whole programs.",
@@ -202,6 +202,7 @@ def run(ctx):
     ctx.prove("WaVerif.Props.C01", required=["shl_i32_count_ge_32_wrong", "shr_i32_count_ge_32_wrong", "shl_i64_count_ge_64_wrong",
                                               "shr_u8_count_ge_32_wrong", "quo_i32_minint_wrong"], allow_extra_axioms=BV_AX)
     ctx.phase('proved')
+    ctx.prove("WaVerif.Props.C01SSA", required=["block_correct", "exec_rename", "rows_use_only_01", "block_add_mul_u8"], allow_extra_axioms=BV_AX)
     model = ctx.build_model("c01")
     ctx.phase('model-built')
     # 3. operand grid over every row: Wa vs Go vs Lean
